@@ -76,6 +76,9 @@ func extract(ld *loader, file, kind, name string, isList, isInt bool) (string, e
 		if p.fset.Position(c.Pos()).Filename != filepath.Join(ld.repo, file) {
 			return "", fmt.Errorf("constant is declared in %s", p.fset.Position(c.Pos()).Filename)
 		}
+		if c.Val().Kind() == constant.String { // e.g. stringer's _Feature_name (FactsPTN.lean)
+			return leanString(constant.StringVal(c.Val())), nil
+		}
 		return leanInt(c.Val(), isInt)
 	case "var", "regexp":
 		var spec *ast.ValueSpec
